@@ -148,6 +148,37 @@ PROPERTIES = {
         "assumptions": COMMON_ASSUMPTIONS + ["stated domain bound: cumulative amount per statistics key below 2^256 (single amounts capped at 2^248)"],
         "tests": [{"test": "TestC12History", "quick": 400, "thorough": 40000}],
     },
+    "C15": {
+        "level": "exploration",
+        "rule": "(1) round-trip: rapid draws payloads over every forwarding type x fee lists x passthrough bytes through the public "
+                "constructors; MarshalJSON -> parser must succeed, give a proto-equal payload with equal unpacked attributes, and re-marshal "
+                "to the same bytes. (2)-(4): memos = structural mutants of valid memos (1-2 mutations at random positions), the targeted "
+                "mutants the statement names (unknown field in any object, second root key, @type replaced by an unregistered or "
+                "other-interface URL), numeric enum spellings, valid memos and fuzzed strings; whenever the parser ACCEPTS, an independent JSON "
+                "walk of the input text must find a well-formed payload (single root key, one forwarding with id 1..4 and a registered "
+                "forwarding type, distinct action ids in {1,2} with a registered action type, no unknown field) and the parsed result must "
+                "satisfy the same; every memo is parsed three times (again after other memos, and on a second parser instance) and results / "
+                "error texts must be equal. Non-trivial = an accepted memo or a round-tripped payload; distinct by memo text.",
+        "assumptions": COMMON_ASSUMPTIONS + ["repeated JSON keys are judged only by the purity clause (the statement does not say which occurrence counts)"],
+        "tests": [
+            {"test": "TestC15RoundTrip", "quick": 5000, "thorough": 500000},
+            {"test": "TestC15Acceptance", "quick": 15000, "thorough": 1500000},
+        ],
+    },
+    "C19": {
+        "level": "exploration",
+        "rule": "rapid draws histories biased towards refused transfers of every kind (mutated memos incl. several unknown fields at once, "
+                "hostile attribute values, odd receivers, failing admin messages, environment steps). Each history is executed on two "
+                "independently constructed application instances in one process, and a second time on the first instance; per step the "
+                "acknowledgement bytes, the ordered ABCI event list and a digest of every KV store, and at the end the exported orbiter and bank "
+                "genesis, must be byte-identical. The cross-process test repeats the comparison between two separate OS processes running the "
+                "same seeded history set. Non-trivial = a history with >= 1 error ack and >= 1 success; distinct by history.",
+        "assumptions": COMMON_ASSUMPTIONS + ["query responses are not compared byte-wise (a proto map field has no defined wire order)"],
+        "tests": [
+            {"test": "TestC19InProcess", "quick": 250, "thorough": 20000},
+            {"test": "TestC19CrossProcess", "quick": 150, "thorough": 6000, "replicas": 2, "shards": 8},
+        ],
+    },
     "C14": {
         "level": "exploration",
         "rule": "rapid generators over (a) structure-aware mutations of valid memos in an orbiter-addressed packet, "
